@@ -136,7 +136,7 @@ class EqvDomain(EventsMixin, Domain):
     pl, pr = pa(l), pa(r)
     # --- translation
     if isinstance(op, ast.Sub):
-      if tl == trr and tl in ('Abs',) or (isinstance(tl, tuple) and tl == trr):
+      if tl == trr and tl in ('Abs', 'AbsT') or (isinstance(tl, tuple) and tl == trr):
         t = 'Inv'
       elif trr == 'Inv':
         t = tl
@@ -156,8 +156,22 @@ class EqvDomain(EventsMixin, Domain):
     else:
       if tl == 'Inv' and trr == 'Inv':
         t = 'Inv'
+      elif 'Dep' in (tl, trr) and isinstance(op, (ast.Mult, ast.Div)):
+        t = 'Dep'        # a dependent factor is not cancelled by the other
       elif 'Unk' in (tl, trr):
         t = 'Unk'
+      elif isinstance(op, ast.MatMult):
+        t = self._lin(l, r, node)[0]
+      elif isinstance(op, (ast.Mult, ast.Div)) and trr == 'Inv' and \
+              (tl == 'Abs' or isinstance(tl, tuple)):
+        # x * w moves by t * w: a linear image, cancelled by the same image
+        # of the partner point
+        t = ('Lin', (tl[1] if isinstance(tl, tuple) else '') +
+             ('*' if isinstance(op, ast.Mult) else '/') + self._key(r, node, 1))
+      elif isinstance(op, ast.Mult) and tl == 'Inv' and \
+              (trr == 'Abs' or isinstance(trr, tuple)):
+        t = ('Lin', (trr[1] if isinstance(trr, tuple) else '') + '*' +
+             self._key(l, node, 0))
       else:
         t = 'Dep'
     # --- swap parity
@@ -215,7 +229,10 @@ class EqvDomain(EventsMixin, Domain):
       return V(INV_E, c=frozenset([3]))       # tuple arrays are 3-D
     if name in ('shape', 'ndim', 'size', 'dtype'):
       return INV_E
-    if name in ('T', 'real'):
+    if name == 'T':
+      t = tr(v)
+      return ({'Abs': 'AbsT', 'AbsT': 'Abs'}.get(t, t), pa(v))
+    if name == 'real':
       return (tr(v), pa(v))
     if v.origin and v.origin[0] == 'extfit':
       if name in ('components_', 'scalings_', 'explained_variance_',
@@ -301,8 +318,18 @@ class EqvDomain(EventsMixin, Domain):
       t = 'Inv'
     elif ta in ('Abs',) and tb == 'Inv':
       t = ('Lin', ast.unparse(node)[:0] + self._key(b, node, 1))
-    elif tb in ('Abs',) and ta == 'Inv':
+    elif ta == 'AbsT' and tb == 'Inv':
+      # X^T W contracts the sample axis: the offset t 1^T W vanishes exactly
+      # when W annihilates constant vectors (a graph Laplacian, a centring
+      # or incidence matrix).  When W may be such a matrix by construction
+      # (z bit), 'S:' marks the value so that a later "dependent" verdict is
+      # weakened to "unknown"
+      t = ('Lin', ('S:' if zc(b) else '') + self._key(b, node, 1))
+    elif tb == 'AbsT' and ta == 'Inv':
       t = ('Lin', self._key(a, node, 0))
+    elif tb in ('Abs',) and ta == 'Inv':
+      # W X (sample-axis contraction) or A v (feature axis, 1-D v)
+      t = ('Lin', ('S:' if zc(a) else '') + self._key(a, node, 0))
     elif 'Unk' in (ta, tb):
       t = 'Unk'
     elif isinstance(ta, tuple) and tb == 'Inv':
@@ -357,7 +384,7 @@ class EqvDomain(EventsMixin, Domain):
               'E' if dotted == 'builtins.abs' and all(p in ('E', 'O')
                                                       for p in ps) else 'X')
     if name in ('cov',) and a0 is not None:
-      return ('Inv' if tr(a0) in ('Inv', 'Abs') or isinstance(tr(a0), tuple)
+      return ('Inv' if tr(a0) in ('Inv', 'Abs', 'AbsT') or isinstance(tr(a0), tuple)
               else tr(a0), 'E' if pa(a0) == 'E' else 'X')
     if name in ('pairwise_distances', 'euclidean_distances'):
       xs = [a for a in args[:2]]
@@ -498,6 +525,9 @@ class EqvDomain(EventsMixin, Domain):
       return INV_E
     if name == 'dot' and len(args) == 1:
       return self._lin(recv, args[0], node)
+    if name == 'transpose' and not args and not kwargs:
+      t = tr(recv)
+      return ({'Abs': 'AbsT', 'AbsT': 'Abs'}.get(t, t), pa(recv))
     if name in ('copy', 'ravel', 'reshape', 'astype', 'squeeze', 'flatten',
                 'transpose', 'tolist', 'conj'):
       return (tr(recv), pa(recv))
@@ -575,6 +605,93 @@ def _fix(res, vals):
   if isinstance(res, tuple) and len(res) == 2 and res[1] in ('X', 'E', 'O'):
     return (res[0], 'B')
   return res
+
+
+class P(tuple):
+  """payload (trans, par) carrying one more bit: `z` - an invariant value that
+  may annihilate constant vectors by construction (difference of invariant
+  arrays, array filled by element stores, anything computed from such)"""
+  def __new__(cls, t, p, z=False):
+    o = tuple.__new__(cls, (t, p))
+    o.z = z
+    return o
+
+
+def zc(v):
+  return any(getattr(x.d if isinstance(x, V) else x, 'z', False)
+             for x in _all(v))
+
+
+def _s_lin(v):
+  for x in _all(v):
+    t = tr(x)
+    if isinstance(t, tuple) and str(t[1]).startswith('S:'):
+      return True
+  return False
+
+
+def _post(res, operands, z=False):
+  """(1) 'Dep' computed from a sample-axis-contracted operand is only 'Unk';
+  (2) the z bit is inherited from the operands."""
+  operands = [o for o in operands if o is not None]
+  d = res.d if isinstance(res, V) else res
+  if not (isinstance(d, tuple) and len(d) == 2):
+    return res
+  t, p = d
+  if t == 'Dep' and any(_s_lin(o) for o in operands) and not any(
+          tr(x) == 'Dep' for o in operands for x in _all(o)):
+    t = 'Unk'
+  z = z or any(zc(o) for o in operands)
+  if t == d[0] and not z:
+    return res
+  nd = P(t, p, z)
+  if isinstance(res, V):
+    return res.with_(d=nd)
+  return nd
+
+
+def _is_arr_inv(v):
+  return tr(v) == 'Inv' and not (isinstance(v, V) and v.c is not NOCONST)
+
+
+def _install_post():
+  C = EqvDomain
+  b, u, e, m, l, a, sub, j, st_ = (C.binop, C.unop, C.ext_call,
+                                   C.method_call, C._lin, C.attr,
+                                   C.subscript, C.join, C.on_store_subscript)
+  C.binop = lambda self, op, x, y, node, st: _post(
+      b(self, op, x, y, node, st), [x, y],
+      z=isinstance(op, ast.Sub) and _is_arr_inv(x) and _is_arr_inv(y))
+  C.unop = lambda self, op, v, node, st: _post(
+      u(self, op, v, node, st), [v])
+  C.ext_call = lambda self, dotted, args, kwargs, node, st, eng: \
+      _post(e(self, dotted, args, kwargs, node, st, eng),
+            list(args) + list(kwargs.values()),
+            z=any(k in dotted.rsplit('.', 1)[-1].lower()
+                  for k in ('laplacian', 'center', 'centre')))
+  C.method_call = lambda self, recv, name, args, kwargs, node, st, eng: \
+      _post(m(self, recv, name, args, kwargs, node, st, eng),
+            [recv] + list(args) + list(kwargs.values()))
+  C._lin = lambda self, x, y, node: _post(l(self, x, y, node), [x, y])
+  C.attr = lambda self, v, name, node, st: _post(
+      a(self, v, name, node, st), [v])
+  C.subscript = lambda self, v, idx, node, st: _post(
+      sub(self, v, idx, node, st), [v])
+
+  def join(self, x, y):
+    r = j(self, x, y)
+    if getattr(x, 'z', False) or getattr(y, 'z', False):
+      return P(r[0], r[1], True)
+    return r
+  C.join = join
+
+  def on_store_subscript(self, target, idx, val, node, st):
+    r = st_(self, target, idx, val, node, st)
+    return P(r[0], r[1], True) if r is not None and r[0] == 'Inv' else r
+  C.on_store_subscript = on_store_subscript
+
+
+_install_post()
 
 
 class StickyEqvDomain(EqvDomain):
